@@ -419,10 +419,10 @@ class MinErrorFlow():
                 # edge_subset = edge_subset[:30]        
 
                 # Getting all the different 'flow_attr' values in the corrected graph
-                ub_different_flow_values = len(set(
-                    corrected_graph[u][v].get(self.flow_attr, 0)
-                    for (u, v) in edge_subset
-                ))
+                # (read them from the internal solution: in node mode the corrected graph is condensed back to the
+                # original nodes and no longer has the edges of the internal, node-expanded graph; and edges without
+                # `flow_attr` also carry a value in the solution, which the re-solve below maps to one of these values)
+                ub_different_flow_values = len(set(self.edge_sol[(u, v)] for (u, v) in edge_subset))
 
                 utils.logger.info(f"{__name__}: re-solving now by minimizing the number of different flow values within 1 + epsilon tolerance to the objective value, i.e. <=(1+{self.different_flow_values_epsilon})*{objective_value}")
                 self._create_solver()
